@@ -418,6 +418,13 @@ func startPipeline(r *obsRun, kind, name string, n []int, f []float64, env [][]f
 			r.drain(floatRecv(w), pc, 0, 1)
 			break
 		}
+		if name == "sma" && len(env) == 2 && len(env[1]) == 1 {
+			// trend.Sma as the library builds it (NetM.smaNet: MovingSum followed by the dividing Apply)
+			c := feed(r, env[0], capacity, pc, 0, 1)
+			w := trend.NewSmaWithPeriod[float64](int(env[1][0])).Compute(c)
+			r.drain(floatRecv(w), pc, 0, 1)
+			break
+		}
 		if name == "ema" && len(env) == 2 && len(env[1]) == 2 {
 			// trend.Ema as the library builds it (NetM.recurNet): Head + Sma give the seed, then the goroutine reads c itself.
 			// Smoothing = mul*(p+1) makes the multiplier the integer mul, so that the values are exact
